@@ -35,6 +35,9 @@ def corpus():
         # unpickling a destroyed row registers it again (open finding)
         {'cfg': {'cache': True, 'freq': 100, 'frac': 2},
          'ops': [['create', 0, [[1, 100]]], ['pickle', 0], ['destroy', 0], ['drop', 0], ['unpickle', 0], ['get', 0, 1]]},
+        # fixed: tryGet answered None on a dead weak reference -> a second unpickle created a second instance
+        {'cfg': {'cache': True, 'freq': 100, 'frac': 1},
+         'ops': [['create', 0, [[1, 100]]], ['pickle', 0], ['cull', 0], ['drop', 0], ['unpickle', 0], ['unpickle', 0], ['get', 0, 1]]},
         # cull moves a held object to the weak cache; it must come back
         {'cfg': {'cache': True, 'freq': 2, 'frac': 1},
          'ops': [['create', 0, [[1, 100]]], ['create', 0, [[1, 101]]], ['cull', 0], ['get', 0, 1], ['get', 0, 2], ['select', 0, None, 0]]},
@@ -47,7 +50,7 @@ def generate(rng, tier):
 
 
 def search_cases(rng, tier):
-    return [L.gen_history(rng, PROFILE, rng.randint(3, 60)) for _ in range(6000)]
+    return [L.gen_history(rng, PROFILE, rng.randint(3, 60)) for _ in range(1500)]
 
 
 identities = L.identities
